@@ -453,3 +453,53 @@ func keyOrigins(v ssa.Value) []ssa.Value {
 	walk(v, 0)
 	return out
 }
+
+// ruleComparatorsPure: R-EQp.  Comparators only look: they neither modify
+// their operands nor any other non-local state.
+func ruleComparatorsPure(p *Prog, r *Report, pkgs map[string]bool, sm *summarizer, extra []string) {
+	r.rule("R-EQp", "Comparators are pure: the functions that decide whether two values are equal (the Equal methods of the Myers pairs, the *Eq helpers, and the whole-configuration comparators named for this property) write no memory reachable from their parameters, receivers, captured variables or globals. A comparator that removes or rewrites part of an operand before comparing it ('ignore unused tables') changes what 'equal' means and what later phases see.")
+	var fns []*ssa.Function
+	for _, e := range eqFuncs(p, pkgs) {
+		if !strings.Contains(strings.ToLower(fnDisplay(e.Fn)), "equaliz") {
+			fns = append(fns, e.Fn)
+		}
+	}
+	for _, fn := range allModFuncs(p) {
+		if !pkgs[pkgOfFunc(fn)] || fn.Synthetic != "" {
+			continue
+		}
+		base := shortName(fn)
+		if i := strings.Index(base, "["); i >= 0 {
+			base = base[:i]
+		}
+		for _, x := range extra {
+			if base == x {
+				fns = append(fns, fn)
+			}
+		}
+	}
+	seen := map[string]bool{}
+	n := 0
+	for _, fn := range fns {
+		name := fnDisplay(fn)
+		if i := strings.Index(name, "["); i >= 0 {
+			name = name[:i]
+		}
+		if seen[name] {
+			continue
+		}
+		seen[name] = true
+		n++
+		sum := sm.sums[fn]
+		var w []string
+		if sum != nil {
+			for rt := range sum.Writes {
+				w = append(w, rt.String())
+			}
+		}
+		sort.Strings(w)
+		r.add("R-EQp", "pure-comparator|"+name, p.pos(fn.Pos()), "the comparator writes no non-local memory", len(w) == 0,
+			"the comparator modifies "+strings.Join(w, ", ")+": its operands are no longer what was loaded / what later phases expect")
+	}
+	r.floor("R-EQp", "comparators examined", n, 1)
+}
